@@ -22,9 +22,23 @@ var failed bool
 func fail(format string, a ...interface{}) {
 	fmt.Fprintf(os.Stderr, "translator: "+format+"\n", a...)
 	failed = true
+	curFailed = true
+}
+
+// curFailed: the generator now running has reported a failure; its output file is then NOT written (the previous,
+// stale file stays, so the model keeps its old behaviour and the check reports the broken tie).
+var curFailed bool
+
+func run(g func()) {
+	curFailed = false
+	g()
 }
 
 func writeIfChanged(name string, content string) {
+	if curFailed {
+		fmt.Fprintf(os.Stderr, "translator: %s NOT regenerated\n", name)
+		return
+	}
 	p := filepath.Join(outDir, name)
 	old, err := ioutil.ReadFile(p)
 	if err == nil && bytes.Equal(old, []byte(content)) {
@@ -41,12 +55,12 @@ func main() {
 	flag.StringVar(&outDir, "out", "/verif/coq/gen", "output directory")
 	flag.Parse()
 	os.MkdirAll(outDir, 0755)
-	genDispatch()
-	genMeta()
-	genDaa()
-	genMapper()
-	genFrame()
-	genConsts()
+	run(genDispatch)
+	run(genMeta)
+	run(genDaa)
+	run(genMapper)
+	run(genFrame)
+	run(genConsts)
 	if failed {
 		os.Exit(1)
 	}
